@@ -247,7 +247,8 @@ Proof. vm_compute. auto. Qed.
 Lemma ok_spec : forall c o,
   ok c o = true <->
   (length o = ncalls (ops c) /\ (forall r, In r o -> r <> CHang /\ r <> CPanic))
-  /\ ok_walk (nokey c) (ops c) o [] [] 0 0 = true /\ ok_progress c o = true.
+  /\ ok_walk (nokey c) (ops c) o [] [] 0 0 = true /\ ok_progress c o = true
+  /\ ok_pending c o = true.
 Proof.
   intros c o. unfold ok, ok_bounded. rewrite !andb_true_iff, Nat.eqb_eq, negb_true_iff.
   assert (Q : existsb bad_res o = false <-> (forall r, In r o -> r <> CHang /\ r <> CPanic)).
